@@ -219,3 +219,19 @@ pub proof fn lemma_run_msgs_one<E, Q, R: CosmosRouter<E, Q>>(router: R, s0: St, 
 //@   ensures [C20.app.init_modules] exists|r0: &mut Router<BankT, CustomT, WasmT, StakingT, DistrT, IbcT, GovT, StargateT>, a: &ApiT, st: &mut dyn Storage| #[trigger] init_fn.ensures((r0, a, st), r) && *r0 == old(self).router && *a == old(self).api && st.view() == old(self).storage.view() && final(self).router == *final(r0) && final(self).storage.view() == final(st).view() && final(self).api == old(self).api && final(self).block == old(self).block
 //@ end
 }
+
+// ---- block updates run the staking module's queue processing on the NEW block (C14: matured unbondings are paid by
+// the first block update at or after their time)
+//@ impl_open src/app.rs :: App
+//@   pick fn set_block
+//@ end
+//@ fn src/app.rs :: App :: set_block
+//@   requires [C14.app.set_block_pre] old(self).router.staking.queue_sem(&old(self).router, old(self).storage.view(), block).0 is Ok
+//@   ensures [C14.app.set_block,C01] final(self).block == block && final(self).router == old(self).router && final(self).storage.view() == old(self).router.staking.queue_sem(&old(self).router, old(self).storage.view(), block).1
+//@ end
+//@ fn src/app.rs :: App :: update_block
+//@   requires [C14.app.update_block_pre] forall|b: &mut BlockInfo| *b == old(self).block ==> #[trigger] action.requires((b,))
+//@   requires [C14.app.update_block_pre2] forall|b: &mut BlockInfo| (*b == old(self).block && #[trigger] action.ensures((b,), ())) ==> old(self).router.staking.queue_sem(&old(self).router, old(self).storage.view(), *final(b)).0 is Ok
+//@   ensures [C14.app.update_block,C01] final(self).router == old(self).router && exists|b: &mut BlockInfo| *b == old(self).block && #[trigger] action.ensures((b,), ()) && final(self).block == *final(b) && final(self).storage.view() == old(self).router.staking.queue_sem(&old(self).router, old(self).storage.view(), *final(b)).1
+//@ end
+}
